@@ -49,7 +49,8 @@ from ..lib_C14 import (BASIN_TYPES, CORE, DCORBASE, FB, FDICT, H5BASE,
                        enclosing_conditions, fact_guard, files_mentioning,
                        fold, fold_basin_classes, method, self_attr_writes,
                        run_straight, single_assign, stmt_of, basin_loop,
-                       inline_module_helpers, module_functions)
+                       expand_partials, inline_module_helpers,
+                       module_functions)
 
 ASSUMPTIONS = [
     "NOT decided: termination as a wall-clock fact; availability checks of "
@@ -286,7 +287,14 @@ def r141(ctx, repo, sites):
     reg = any(isinstance(n, ast.Assign) and isinstance(
         n.targets[0], ast.Subscript) and isinstance(
         n.targets[0].slice, ast.Attribute)
-        and n.targets[0].slice.attr == "basin_format" for n in walk(gbc))
+        and n.targets[0].slice.attr == "basin_format" for n in walk(gbc)) \
+        or any(isinstance(n, ast.DictComp) and isinstance(
+            n.key, ast.Attribute) and n.key.attr == "basin_format"
+            and txt(n.key.value) == txt(n.value)
+            and len(n.generators) == 1 and is_name(
+                n.generators[0].target, txt(n.value))
+            and "__subclasses__" in txt(n.generators[0].iter)
+            for n in walk(gbc))
     sub = any(last_attr(c) == "__subclasses__" for c in find_calls(
         gbc, attr="__subclasses__"))
     if not (reg and sub):
@@ -1752,9 +1760,9 @@ def run(ctx):
     ctx.rule("R14.4", "degradation: basin access inside try, catch-all, no "
              "re-raise, None unless delivered, copy iteration, available "
              "basins only", minimum=7)
-    sites = Sites(inline_module_helpers(
+    sites = Sites(expand_partials(inline_module_helpers(
         repo, CORE, repo.func(CORE, "RTDCBase.basins_retrieve"),
-        methods=True, keep=KEEP_CALLS))
+        methods=True, keep=KEEP_CALLS)))
     r141(ctx, repo, sites)
     r141_writers(ctx, repo)
     r142(ctx, repo, sites)
@@ -2187,6 +2195,20 @@ def _twin_direct_return(src):
     return src
 
 
+def _twin_partial(src):
+    """the four instantiations through one functools.partial"""
+    if src.count("b_cls(") < 4 or "import functools" in src:
+        return src
+    src = src.replace("import abc\n", "import abc\nimport functools\n", 1)
+    src = src.replace(
+        "            # Check whether this basin is supported and exists\n",
+        "            new_basin = functools.partial(b_cls, **kwargs)\n\n"
+        "            # Check whether this basin is supported and exists\n", 1)
+    for loc in ('bdict["paths"][0]', "pp", "this_path.parent / pp", "url"):
+        src = src.replace(f"b_cls({loc}, **kwargs)", f"new_basin({loc})")
+    return src
+
+
 def _twin_forward_constant(src):
     """forwarding list as module constant, early raise"""
     a = src.index("    def __getattr__(self, item):\n        if item in [\n"
@@ -2241,6 +2263,18 @@ TWINS = [
       "        self._ds.ignore_basins(seen_basin_keys)\n"
       "        return self._ds\n")),
     ("ignore keys collected by a loop and extend()", CORE, _twin_key_loop),
+    ("basins instantiated through functools.partial", CORE, _twin_partial),
+    ("format table built by a dict comprehension", FB,
+     ("    bc = {}\n"
+      "    for b_cls in Basin.__subclasses__():\n"
+      "        if hasattr(b_cls, \"basin_format\"):\n"
+      "            bc[b_cls.basin_format] = b_cls\n"
+      "    return bc\n",
+      "    return {\n"
+      "        b_cls.basin_format: b_cls\n"
+      "        for b_cls in Basin.__subclasses__()\n"
+      "        if hasattr(b_cls, \"basin_format\")\n"
+      "    }\n")),
     ("format derived through locals", CORE,
      ('        self.format = self.__class__.__name__.split("_")[-1].lower()\n',
       '        class_name = self.__class__.__name__\n'
